@@ -263,6 +263,7 @@ func (w *World) probes(r *RunResult) {
 	r.Probes["buf_reuse"] += w.pools.stats.BufReuse
 	r.Probes["buf_gets"] += w.pools.stats.BufGets
 	r.Probes["comp_reuse"] += w.pools.stats.CompReuse
+	r.Probes["pool_entries_vanished"] += w.pools.stats.Vanished
 }
 
 // describe renders the scenario and observations for samples and replay
